@@ -113,7 +113,18 @@ Definition next_action (g : gates) (h : hints) (s : st) : option ev :=
     end in
   let rd := option_map EvReader (find_idx (reader_runnable g s) (readers s) 0) in
   let rp := option_map EvReply (find_idx (reply_runnable s) (calls s) 0) in
-  or_else a_round (or_else a_caller (or_else a_acq (or_else a_cancel
+  (* the harness saw actor w take the lock: if w is a reader still on its way to the lock
+     (it was blocked in D4 and has just been let through), it gets there first *)
+  let win_on_its_way :=
+    match h_win h with
+    | Some (OwR i) => match nth_error (readers s) i with
+                      | Some r => reader_runnable g s r
+                      | None => false
+                      end
+    | _ => false
+    end in
+  let a_acq' := if win_on_its_way then None else a_acq in
+  or_else a_round (or_else a_caller (or_else a_acq' (or_else a_cancel
     (if h_replyfirst h then or_else rp rd else or_else rd rp)))).
 
 Fixpoint quiesce (fuel : nat) (g : gates) (h : hints) (s : st) : st :=
